@@ -7,6 +7,7 @@ package harness
 // entry to exactly that call.  Oracle: directory contents + trace.
 
 import (
+	"bytes"
 	"flag"
 	"fmt"
 	"os"
@@ -81,7 +82,11 @@ func childMain(mode string) int {
 	}
 	nlines, _ := strconv.Atoi(os.Getenv("C16_LINES"))
 	nelems, _ := strconv.Atoi(os.Getenv("C16_ELEMS"))
-	for k, v := range map[string]string{"rapid.seed": os.Getenv("C16_SEED"), "rapid.shrinktime": "0s", "rapid.checks": "5"} {
+	shrinktime := "0s"
+	if os.Getenv("C16_SHRINK") == "1" {
+		shrinktime = "60s" // minimisation runs to its end (milliseconds); the crash window then includes all of it
+	}
+	for k, v := range map[string]string{"rapid.seed": os.Getenv("C16_SEED"), "rapid.shrinktime": shrinktime, "rapid.checks": "5", "rapid.failfile": os.Getenv("C16_FAILFILE")} {
 		if err := flag.Set(k, v); err != nil {
 			fmt.Println(err)
 			return 2
@@ -133,12 +138,26 @@ func c16Scenarios(cfg runCfg) []Scenario {
 				// file systems fails with EXDEV): irrelevant as long as the temp file lives next to its target
 				sc.X = map[string]string{"tmpdir": "/dev/shm"}
 			}
+			if mix(cfg.seed, 1617, uint64(i))%3 == 0 && sc.K <= 100 {
+				// minimisation runs (to its end) before the save: the crash window is the whole failing Check
+				if sc.X == nil {
+					sc.X = map[string]string{}
+				}
+				sc.X["shrink"] = "1"
+			}
 			out = append(out, sc)
 		}
 	}
 	for i := 0; i < cfg.n(8, 10); i++ {
 		if cfg.mine(i) {
 			out = append(out, Scenario{Family: "crash", Seed: mix(cfg.seed, 16, 77, uint64(i)), N: lines[i%len(lines)], K: elems[1+i%3], S: names[i%len(names)], X: map[string]string{"twice": "1"}})
+		}
+	}
+	// the failing run was started with -rapid.failfile=<a file that is missing or no longer reproduces a failure>
+	for i := 0; i < cfg.n(12, 6); i++ {
+		if cfg.mine(i) {
+			out = append(out, Scenario{Family: "crash", Seed: mix(cfg.seed, 16, 55, uint64(i)), N: []int{0, 1, 3}[i%3], K: []int{1, 10, 100}[(i/3)%3], S: names[i%len(names)],
+				X: map[string]string{"explicit": []string{"missing", "stale-in-dir", "stale-elsewhere", "missing-in-dir"}[i%4]}})
 		}
 	}
 	// faults: a system call of the save fails (disk full, permissions, rename across devices ...), and the process is
@@ -225,6 +244,12 @@ func (sc Scenario) c16Env() []string {
 	if sc.X["twice"] == "1" {
 		env = append(env, "C16_TWICE=1")
 	}
+	if sc.X["shrink"] == "1" {
+		env = append(env, "C16_SHRINK=1")
+	}
+	if ex := sc.X["explicit"]; ex != "" {
+		env = append(env, "C16_FAILFILE="+c16ExplicitPath(sc))
+	}
 	return append(env, "C16_NAME="+sc.S, fmt.Sprintf("C16_LINES=%d", sc.N), fmt.Sprintf("C16_ELEMS=%d", sc.K), fmt.Sprintf("C16_SEED=%d", sc.Seed%100000+1), "GOMAXPROCS=1", "GOGC=off")
 }
 
@@ -274,6 +299,10 @@ func c16Run(t *testing.T, sc Scenario, res *Result) {
 	defer os.RemoveAll(base)
 	name := sc.S
 
+	if sc.X["explicit"] != "" {
+		c16Explicit(sc, res, base)
+		return
+	}
 	// step 1: uninterrupted reference run, traced
 	refDir := filepath.Join(base, "ref")
 	trace, _, err := runChild(sc, refDir, "")
@@ -645,5 +674,142 @@ func c16Fault(sc Scenario, res *Result, base string, points []c16Point, refNorm 
 	}
 	if res.wantSample() {
 		res.sample(map[string]any{"family": "fault", "name": name, "output_lines": sc.N, "slice_elems": sc.K, "fault_points": len(fps), "save_syscalls": len(points)})
+	}
+}
+
+// the path given with -rapid.failfile (relative to the child's working directory)
+func c16ExplicitPath(sc Scenario) string {
+	san := sanitize(sc.S)
+	switch sc.X["explicit"] {
+	case "stale-in-dir", "missing-in-dir":
+		return filepath.Join("testdata", "rapid", san, san+"-20200101000000-1.fail")
+	case "stale-elsewhere":
+		return filepath.Join("saved", "case.fail")
+	}
+	return "no-such-file.fail"
+}
+
+// c16Explicit: the failing run was started with -rapid.failfile naming a file that is missing or that no longer
+// reproduces a failure (a complete fail file of this version whose data is too short now).  A later run with the same
+// command line picks that path up, so it is a picked-up name like the ones the glob finds: it is never opened for
+// writing, and at every crash point it holds either exactly what it held before or a complete save.
+func c16Explicit(sc Scenario, res *Result, base string) {
+	name := sc.S
+	san := sanitize(name)
+	wd, _ := os.Getwd()
+	expl := c16ExplicitPath(sc)
+	stale := []byte("# stale but complete fail file planted by the harness\n" + rapidVersion() + "#12345")
+	planted := strings.HasPrefix(sc.X["explicit"], "stale")
+	plant := func(dir string) {
+		os.MkdirAll(dir, 0o775)
+		if planted {
+			os.MkdirAll(filepath.Join(dir, filepath.Dir(expl)), 0o775)
+			if err := os.WriteFile(filepath.Join(dir, expl), stale, 0o664); err != nil {
+				panic(err)
+			}
+		}
+	}
+	refDir := filepath.Join(base, "ref")
+	plant(refDir)
+	trace, _, err := runChild(sc, refDir, "")
+	if err != nil || len(trace) == 0 {
+		res.inconclusive(fmt.Sprintf("reference run failed: %v", err))
+		return
+	}
+	_, saveTrace, points, sawEnd := c16SaveTrace(trace)
+	if !sawEnd || len(points) == 0 {
+		res.inconclusive("markers not found in the reference trace")
+		return
+	}
+	// what did the uninterrupted run leave?
+	os.Chdir(refDir)
+	final, temps, _ := listFailDir(name)
+	os.Chdir(wd)
+	var fresh []string
+	for _, f := range final {
+		if filepath.Clean(f) != filepath.Clean(expl) {
+			fresh = append(fresh, f)
+		}
+	}
+	explNow, _ := os.ReadFile(filepath.Join(refDir, expl))
+	var refNorm string
+	switch {
+	case len(fresh) == 1 && len(temps) == 0:
+		b, _ := os.ReadFile(filepath.Join(refDir, fresh[0]))
+		refNorm = normFailFile(b)
+	case len(fresh) == 0 && len(temps) == 0 && len(explNow) > 0 && !bytes.Equal(explNow, stale):
+		refNorm = normFailFile(explNow) // the library chose to save under the given name: legal if done atomically
+	default:
+		res.violate(sc, "c16/explicit-ref-dir", fmt.Sprintf("uninterrupted failing run with -rapid.failfile=%s left %d new fail files and %d temp files", expl, len(fresh), len(temps)), map[string]any{"trace": traceStr(saveTrace, 40)})
+		return
+	}
+	res.inc("scenarios_traced")
+	res.inc("explicit_scenarios:" + sc.X["explicit"])
+	res.count("save_syscalls", int64(len(points)))
+	c16TraceOracle(sc, res, saveTrace, san, "/explicit")
+	// the given path itself must not be opened for writing either
+	q := `"` + expl + `"`
+	for _, l := range saveTrace {
+		switch l.name {
+		case "openat", "open", "creat":
+			if strings.Contains(l.rest, q) && (strings.Contains(l.rest, "O_WRONLY") || strings.Contains(l.rest, "O_RDWR") || strings.Contains(l.rest, "O_CREAT") || l.name == "creat") {
+				res.violate(sc, "c16/explicit-open-for-writing", "the file named by -rapid.failfile (picked up by the next run with the same command line) was opened for writing / created directly: "+clip(l.rest, 200), map[string]any{"trace": traceStr(saveTrace, 60)})
+			}
+		case "truncate", "ftruncate":
+			if strings.Contains(l.rest, q) {
+				res.violate(sc, "c16/explicit-open-for-writing", "the file named by -rapid.failfile was truncated in place: "+clip(l.rest, 200), nil)
+			}
+		}
+	}
+	for pi, p := range points {
+		dir := filepath.Join(base, fmt.Sprintf("x%03d", pi))
+		plant(dir)
+		_, killed, err := runChild(sc, dir, fmt.Sprintf("%s:signal=KILL:when=%d", p.name, p.j))
+		res.inc("crash_runs")
+		res.inc("explicit_crash_runs")
+		if err != nil {
+			res.inconclusive("crash run failed to start: " + err.Error())
+			os.RemoveAll(dir)
+			continue
+		}
+		if !killed {
+			res.inc("crash_point_not_reached")
+			res.inconclusive(fmt.Sprintf("child survived injection %s#%d", p.name, p.j))
+			os.RemoveAll(dir)
+			continue
+		}
+		res.inc("killed_at:" + p.name)
+		res.nontrivial(fmt.Sprintf("explicit/%x/%s#%d", sc.Seed, p.name, p.j))
+		os.Chdir(dir)
+		final, temps, _ := listFailDir(name)
+		detail := map[string]any{"crash_point": fmt.Sprintf("%s #%d %s", p.name, p.j, p.args), "failfile_flag": expl, "final_files": final, "temp_files": temps, "save_trace": traceStr(saveTrace, 60)}
+		check := func(f string, b []byte) {
+			if planted && filepath.Clean(f) == filepath.Clean(expl) && bytes.Equal(b, stale) {
+				res.inc("explicit_file_untouched")
+				return
+			}
+			if _, _, _, _, err := readFailFile(f); err != nil {
+				res.violate(sc, "c16/explicit-partial-visible", fmt.Sprintf("after a kill at %s#%d the file %s that a later run picks up does not parse: %v (%d bytes)", p.name, p.j, f, err, len(b)), detail)
+			} else if normFailFile(b) != refNorm {
+				res.violate(sc, "c16/explicit-incomplete-visible", fmt.Sprintf("after a kill at %s#%d the picked-up file %s is neither what it was before the run nor a complete save (%d bytes)", p.name, p.j, f, len(b)), detail)
+			}
+		}
+		seen := false
+		for _, f := range final {
+			b, _ := os.ReadFile(f)
+			if filepath.Clean(f) == filepath.Clean(expl) {
+				seen = true
+			}
+			check(f, b)
+		}
+		if !seen {
+			if b, err := os.ReadFile(expl); err == nil {
+				check(expl, b)
+			} else if planted {
+				res.violate(sc, "c16/explicit-lost", fmt.Sprintf("after a kill at %s#%d the file named by -rapid.failfile is gone", p.name, p.j), detail)
+			}
+		}
+		os.Chdir(wd)
+		os.RemoveAll(dir)
 	}
 }
